@@ -130,13 +130,25 @@ theorem outCallerAllocates_bare (a : Anns) (t : Ty) (g c : Str) (h0 : a.inout = 
 theorem transferStep_none (isRet : Bool) (d : Dir) (t : Ty) (cur : Option Str) (arr : Bool) :
     transferStep isRet d t cur none arr = .ok (cur, false) := rfl
 
+/-- `transfer in TRANSFER_OPTIONS` -/
+def knownTransfer (m : Str) : Bool := Gen.ParamAnn.transferOptions.any (fun o => G o == m)
+
+/-- a mode outside `TRANSFER_OPTIONS` (the parser has reported it): nothing is applied -/
+theorem transferStep_unknown (isRet : Bool) (d : Dir) (t : Ty) (cur : Option Str) (arr : Bool) (m : Str)
+    (h : knownTransfer m = false) :
+    transferStep isRet d t cur (some [m]) arr = .ok (cur, false) := by
+  unfold transferStep
+  unfold knownTransfer at h
+  simp [h]
+
 /-- floating ↦ none on objects, GVariant, GClosure; otherwise a warning and no change -/
 theorem transferStep_floating (isRet : Bool) (d : Dir) (t : Ty) (cur : Option Str) (arr : Bool) :
     transferStep isRet d t cur (some [G Gen.ParamAnn.optTransferFloating]) arr =
       if isClassLike t.cls || nodeTypeGiname t == some (G "GLib.Variant") || nodeTypeGiname t == some (G "GObject.Closure")
       then .ok (some (G Gen.ParamAnn.optTransferNone), false) else .ok (cur, true) := by
   unfold transferStep
-  simp only [beq_self_eq_true, if_true]
+  have hk : (Gen.ParamAnn.transferOptions.any (fun o => G o == G Gen.ParamAnn.optTransferFloating)) = true := by decide
+  simp only [hk, Bool.not_true, Bool.false_eq_true, if_false, beq_self_eq_true, if_true]
   cases isClassLike t.cls <;> cases h1 : (nodeTypeGiname t == some (G "GLib.Variant")) <;>
     cases h2 : (nodeTypeGiname t == some (G "GObject.Closure")) <;> simp_all [bne]
 
@@ -144,22 +156,43 @@ theorem transferStep_container (isRet : Bool) (d : Dir) (t : Ty) (cur : Option S
     transferStep isRet d t cur (some [G Gen.ParamAnn.optTransferContainer]) arr =
       if arr || t.isContainer then .ok (some (G Gen.ParamAnn.optTransferContainer), false) else .ok (cur, true) := by
   unfold transferStep
+  have hk : (Gen.ParamAnn.transferOptions.any (fun o => G o == G Gen.ParamAnn.optTransferContainer)) = true := by decide
   have : (G Gen.ParamAnn.optTransferContainer == G Gen.ParamAnn.optTransferFloating) = false := by decide
-  simp only [this, beq_self_eq_true, if_true]
+  simp only [hk, Bool.not_true, Bool.false_eq_true, if_false, this, beq_self_eq_true, if_true]
   cases arr <;> cases t.isContainer <;> simp
 
-/-- any other mode (none, full, or an unknown word): written iff the site passes the pointer test -/
+/-- the other known modes (none, full): written iff the site passes the pointer test -/
 theorem transferStep_other (isRet : Bool) (d : Dir) (t : Ty) (cur : Option Str) (arr : Bool) (m : Str) (p : Bool)
+    (hk : knownTransfer m = true)
     (h1 : m ≠ G Gen.ParamAnn.optTransferFloating) (h2 : m ≠ G Gen.ParamAnn.optTransferContainer)
     (hp : isPointerType isRet d t = .ok p) :
     transferStep isRet d t cur (some [m]) arr =
       if !p && !nodeTypeIsString t && !t.isContainer && !isCompoundLike t.cls then .ok (cur, true)
       else .ok (some m, false) := by
   unfold transferStep
+  unfold knownTransfer at hk
   have e1 : (m == G Gen.ParamAnn.optTransferFloating) = false := by simpa using h1
   have e2 : (m == G Gen.ParamAnn.optTransferContainer) = false := by simpa using h2
-  simp only [e1, e2, hp, bind, Except.bind, pure, Except.pure]
-  cases h3 : (!p && !nodeTypeIsString t && !t.isContainer && !isCompoundLike t.cls) <;> simp
+  simp only [hk, Bool.not_true, Bool.false_eq_true, if_false, e1, e2, hp, bind, Except.bind, pure, Except.pure]
+
+theorem knownTransfer_cases (m : Str) (h : knownTransfer m = true) :
+    m = G "floating" ∨ m = G "container" ∨ m = G "none" ∨ m = G "full" := by
+  unfold knownTransfer at h
+  simp only [Gen.ParamAnn.transferOptions, List.any_cons, List.any_nil, Bool.or_false, Bool.or_eq_true,
+    beq_iff_eq] at h
+  rcases h with h | h | h | h
+  · exact Or.inr (Or.inl h.symm)
+  · exact Or.inl h.symm
+  · exact Or.inr (Or.inr (Or.inr h.symm))
+  · exact Or.inr (Or.inr (Or.inl h.symm))
+
+/-- the parser reports every single-option `(transfer m)` whose mode is not a known one -/
+theorem validate_transfer_unknown (m : Str) (h : knownTransfer m = false) :
+    validateList Gen.ParamAnn.paramValidate (G "transfer") [m] = 1 := by
+  unfold knownTransfer at h
+  have hr : findRow Gen.ParamAnn.paramValidate (G "transfer") =
+      some ("transfer", "generic", some 1, none, none, some Gen.ParamAnn.transferOptions) := by rfl
+  simp [validateList, hr, validateGeneric, h]
 
 /-! ### nullability -/
 
